@@ -5,6 +5,7 @@ the tier (each documented flag alone, default, all-on, and pairs in the thorough
 that disagree on (solved, objective) are a concrete failing input.  The LP-level effect of each option
 is covered by E1 in the encoder engines; the theorems are the fixing/zero-fixing/bounds lemmas."""
 import itertools
+import networkx as nx
 import common, gen, gen2, zoo
 
 LEVEL = "proof"
@@ -171,6 +172,7 @@ def run(ctx):
 
     scan_windows(ctx, ctx.budget(90, 2500))
     mgs_premises(ctx, ctx.budget(80, 2000))
+    mgs_premises_cycles(ctx, ctx.budget(40, 1000))
     length_safety(ctx, ctx.budget(300, 4000))
     import e3window   # E3: get_subgraph_between_topological_nodes == SubgraphBound.window_subgraph_opt (subgraph-scanning lower bound)
     e3window.run_window_e3(ctx, ctx.budget(150, 3000))
@@ -364,6 +366,23 @@ def is_exact_cut_multiset(G, live, part):
     return False
 
 
+def option_changes_answer(info, opts_on, opts_off):
+    """search for a failing input behind a broken premise: does the option change solvability / the number of routes on this instance?"""
+    try:
+        a = zoo.construct(info, opts_on); a.solve()
+        b = zoo.construct(info, opts_off); b.solve()
+    except Exception as e:
+        return f"raised {e!r}"
+    if a.is_solved() != b.is_solved():
+        return f"solved {a.is_solved()} with the option, {b.is_solved()} without"
+    if a.is_solved():
+        key = "walks" if "walks" in a.get_solution() else "paths"
+        na, nb = len(a.get_solution()[key]), len(b.get_solution()[key])
+        if na != nb:
+            return f"{na} routes with the option, {nb} without"
+    return None
+
+
 def mgs_premises(ctx, n):
     """Premises of C05_min_gen_set_option_is_sound, checked on the objects the code builds: whenever MinFlowDecomp consults
     MinGenSet for its lower bound, (a) the s-t graph has the shape the theorem assumes (nodes attached to the synthetic source
@@ -455,8 +474,85 @@ def mgs_premises(ctx, n):
             ctx.count("E2_min_gen_set_premises", "partition_constraints_checked", len(c["partition_constraints"]))
         ctx.count("E2_min_gen_set_premises", "premises_checked")
         if problems:
+            diff = option_changes_answer(info, opts, dict(opts, use_min_gen_set_lowerbound=False))
+            rep["failing_input_search"] = diff or "the option does not change the answer on this instance"
             ctx.report("the MinGenSet instance built for the lower bound does not meet the premises of C05_min_gen_set_option_is_sound: "
-                       + "; ".join(problems), rep)
+                       + "; ".join(problems) + (f" -- and the answer changes: {diff}" if diff else ""), rep, concrete=bool(diff))
+
+
+def mgs_premises_cycles(ctx, n):
+    """Premises of C05_min_gen_set_option_is_sound_for_walks on the objects MinFlowDecompCycles builds: when it consults MinGenSet,
+    (a) the numbers are flow values of the graph's edges, (b) the total is the flow leaving the sources, (c) max_multiplicity is
+    at least the largest repetition cap of the k-model the search then builds (`mult P i e <= mg_mult` must hold for EVERY walk
+    family the k-model admits, and a walk may repeat an edge up to its cap), same weight type; flows from walk families in
+    which the lightest walk is never alone on an edge are part of the generator (there a multiplicity counted in units of
+    the smallest flow value is too small)."""
+    import flowpaths as fp
+    import inspect
+    import flowpaths.mingenset as mgsmod
+    cls_ = mgsmod.MinGenSet; real_init = cls_.__init__
+    names_ = [p_ for p_ in inspect.signature(real_init).parameters][1:]
+    for i in range(n):
+        rng = ctx.rng("mgspremc", i)
+        if i % 3 == 0:
+            # chain s -> x1 -> ... -> t with self-loops / 2-cycles; every walk uses the whole chain, loops are shared
+            G = nx.DiGraph(); G.graph["id"] = f"mgsc{i}"
+            L = rng.randint(2, 4); chain = ["s"] + [f"x{j}" for j in range(L)] + ["t"]
+            ws = [rng.randint(1, 5) for _ in range(rng.randint(2, 3))]
+            for e in gen.pairs(chain): G.add_edge(*e, flow=sum(ws))
+            for j in range(L):
+                if rng.random() < 0.7:
+                    reps = [rng.randint(0, 2) for _ in ws]
+                    if sum(r * w for r, w in zip(reps, ws)) > 0:
+                        G.add_edge(f"x{j}", f"x{j}", flow=sum(r * w for r, w in zip(reps, ws)))
+            info = {"class": "MinFlowDecompCycles", "G": G, "ignore": [],
+                    "kwargs": {"flow_attr": "flow", "weight_type": int, "solver_options": {"threads": 1}}}
+        else:
+            info = zoo.make(rng, "MinFlowDecompCycles", node=False, with_starts=False, with_ignore=False, exact=True)
+        seen = []
+
+        def tapped(self, *a, **kw):
+            seen.append(dict(zip(names_, a), **kw)); return real_init(self, *a, **kw)
+        opts = {"use_min_gen_set_lowerbound": True}
+        cls_.__init__ = tapped
+        try:
+            m = zoo.construct(info, opts); lb = m.get_lowerbound_k()
+        except ValueError:
+            ctx.dist("mgs-premises-cycles:ValueError"); continue
+        finally:
+            cls_.__init__ = real_init
+        G = info["G"]
+        rep = {"instance": zoo.describe(info), "options": opts, "captured": [{k: v for k, v in c.items() if k != "solver_options"} for c in seen]}
+        ctx.case(["mgspremc", zoo.describe(info)], nontrivial=bool(seen)); ctx.count("E2_min_gen_set_premises", "cyclic_cases")
+        if not seen:
+            continue            # ignored weighted edge / unweighted edges: the guard, covered for the DAG class above
+        c = seen[0]
+        flows = {d["flow"] for _, _, d in G.edges(data=True) if "flow" in d}
+        problems = []
+        if not set(c.get("numbers", [])) <= flows:
+            problems.append(f"numbers {sorted(set(c.get('numbers', [])) - flows)} are not flow values")
+        srcflow = sum(max(0, sum(d.get("flow", 0) for _, _, d in G.out_edges(v, data=True)) - sum(d.get("flow", 0) for _, _, d in G.in_edges(v, data=True))) for v in G.nodes())
+        if c.get("total") != srcflow:
+            problems.append(f"total {c.get('total')} is not the flow leaving the sources ({srcflow})")
+        if c.get("weight_type") is not info["kwargs"].get("weight_type", float):
+            problems.append(f"weight type {c.get('weight_type')}")
+        try:
+            kw_k = {k_: v for k_, v in info["kwargs"].items()}
+            km = fp.kFlowDecompCycles(G, k=max(1, lb or 1), **kw_k)
+            synth = set(map(tuple, km.G.source_sink_edges))
+            cap = max([km.edge_upper_bounds[e] for e in km.G.edges() if tuple(e) not in synth] or [1])
+        except Exception as e:
+            ctx.report(f"kFlowDecompCycles for the lower bound's k raised {e!r}", rep); continue
+        if c.get("max_multiplicity", 1) < cap:
+            problems.append(f"max_multiplicity {c.get('max_multiplicity')} is below the largest repetition cap {cap} of the k-model: a walk "
+                            "of an admissible decomposition may repeat an edge more often than MinGenSet may use an element")
+        ctx.count("E2_min_gen_set_premises", "cyclic_premises_checked")
+        if problems:
+            diff = option_changes_answer(info, opts, {"use_min_gen_set_lowerbound": False})
+            rep["failing_input_search"] = diff or "the option does not change the answer on this instance"
+            ctx.report("the MinGenSet instance built for the lower bound of MinFlowDecompCycles does not meet the premises of "
+                       "C05_min_gen_set_option_is_sound_for_walks: " + "; ".join(problems) + (f" -- and the answer changes: {diff}" if diff else ""),
+                       rep, concrete=bool(diff))
 
 
 def length_safety(ctx, n):
